@@ -334,7 +334,7 @@ fn guard_key(f: impl Fn() -> in_toto::Result<PublicKey>) -> Result<PublicKey, St
 }
 
 fn alg_variants() -> Vec<(&'static str, Option<Vec<&'static str>>)> {
-    vec![("absent", None), ("default", Some(vec!["sha256", "sha512"])), ("one", Some(vec!["sha256"])), ("reordered", Some(vec!["sha512", "sha256"]))]
+    vec![("absent", None), ("default", Some(vec!["sha256", "sha512"])), ("one", Some(vec!["sha256"])), ("reordered", Some(vec!["sha512", "sha256"])), ("empty", Some(vec![]))]
 }
 
 // ------------------------------------------------------------- key tables
@@ -563,7 +563,7 @@ pub fn run(tier: Tier) -> i32 {
     check_tables(&mut acc, if tier.thorough() { 3 } else { 2 });
     crate::envprobe::judge(&mut acc, "C12:", &mut c.extra);
     c.acc = acc;
-    c.rule = "keys: 6 Ed25519, 3 ECDSA P-256, RSA 2048 x2 / 3072 / 4096 / 8192 (the largest supported; public key only) / 2048 with public exponents 0x800001 and 0x80000001; construction paths: PKCS#8 private key, standard DER and PEM SubjectPublicKeyInfo, raw bytes, 64-byte keypair, JSON with/without a (lying) keyid member and a private member, each with hash-algorithm list absent/default/one/reordered where the path takes one; every RSA material also under the other PSS digest (PKCS#8, SPKI, JSON) in the same process; for each: key id == reference preimage hash, equality across paths, JSON round trip, SPKI re-export identity and re-import. Reference signatures: RSA 2048/3072/4096/8192 x both PSS digests x import path (DER, PEM, JSON): the OpenSSL-made signature of the same digest verifies, those of the other digest, of another key and with one bit flipped do not. Re-spelled identifiers: A's genuine signature under A's id in upper case / with one letter in upper case (inside and after the 8-character prefix), (and under the ids the same key material has with no / another hash-algorithm list), filed under the proper name, the re-spelled prefix and both, end to end and through Metablock::verify; an identifier is written back as read. Key tables: every sequence of <= N appended (label, key) entries over labels {id(A), id(B), zeros, id(A) in upper case, A's 8-character prefix + zeros, id(A) with the last digit changed} x keys {A, B, A and B rebuilt without a hash-algorithm list}, parsed, then used end to end with links signed by B".into();
+    c.rule = "keys: 6 Ed25519, 3 ECDSA P-256, RSA 2048 x2 / 3072 / 4096 / 8192 (the largest supported; public key only) / 2048 with public exponents 0x800001 and 0x80000001; construction paths: PKCS#8 private key, standard DER and PEM SubjectPublicKeyInfo, raw bytes, 64-byte keypair, JSON with/without a (lying) keyid member and a private member, each with hash-algorithm list absent / default / one / reordered / present but empty where the path takes one; every RSA material also under the other PSS digest (PKCS#8, SPKI, JSON) in the same process; for each: key id == reference preimage hash, equality across paths, JSON round trip, SPKI re-export identity and re-import. Reference signatures: RSA 2048/3072/4096/8192 x both PSS digests x import path (DER, PEM, JSON): the OpenSSL-made signature of the same digest verifies, those of the other digest, of another key and with one bit flipped do not. Re-spelled identifiers: A's genuine signature under A's id in upper case / with one letter in upper case (inside and after the 8-character prefix), (and under the ids the same key material has with no / another hash-algorithm list), filed under the proper name, the re-spelled prefix and both, end to end and through Metablock::verify; an identifier is written back as read. Key tables: every sequence of <= N appended (label, key) entries over labels {id(A), id(B), zeros, id(A) in upper case, A's 8-character prefix + zeros, id(A) with the last digit changed} x keys {A, B, A and B rebuilt without a hash-algorithm list}, parsed, then used end to end with links signed by B".into();
     c.bound_completed = format!("all keys x all paths; tables of <= {} entries", if tier.thorough() { 3 } else { 2 });
     c.assume("reference key-id preimage = securesystemslib (self-tested against Python-made key ids in C11)");
     c.assume("standard SPKI encodings built by template and byte-compared with OpenSSL-generated fixtures");
